@@ -151,7 +151,7 @@ def h_noninterference(sym, kind="stopping", W=2, T=3, E=8, max_t=4, brackets=1, 
 ASSUME = [
     "stub globalrng: numpy.random.{uniform,rand,random,random_sample,randint,choice,normal,randn,seed,shuffle,permutation} and random.{random,uniform,randint,choice,shuffle,sample,seed,gauss} return fresh symbolic values (shuffle/permutation/sample: an arbitrary rotation); other global entry points (e.g. numpy.random.beta) are not intercepted",
     "both twins live in one process and are interleaved call by call, so each is 'another scheduler object created in the same process' for the other",
-    "hash randomisation and fresh-process twins are not solver variables: the concrete replays of the witnesses re-run the twins with differently seeded global generators (concrete supplement)",
+    "hash randomisation and fresh-process twins are not solver variables: the concrete replays of the witnesses re-run the twins with differently seeded global generators, and each witness is re-run in fresh interpreters under PYTHONHASHSEED 0..6 with the event traces (all suggestions and decisions) compared (concrete supplement, code C11.hash-seed-dependence)",
     "GP-based searchers only before their first model fit; MOASHA takes no random_seed and is outside",
 ]
 
@@ -169,7 +169,8 @@ def obligations(tier):
             # population of 4: the upper quantile holds two trials, so the clone source is a real random choice
             p.update(W=4, T=5, E=9, population_size=4, concrete_metrics=True)
         obs.append(Ob("C11.a[%s%s]" % (kind, ",B=2" if extra else ""), "props.c11:h_noninterference", p,
-                      bounds=dict(T=p["T"], E=p["E"], W=p["W"], max_t=mt), goals=("end",), split=sp if kind != "pbt" else (("c4", (0, 1, 2, 3)), ("c5", (0, 1, 2, 3))), budget_s=1800, may_be_incomplete=not quick,
+                      bounds=dict(T=p["T"], E=p["E"], W=p["W"], max_t=mt, hash_seeds="witnesses re-run under PYTHONHASHSEED 0..6"),
+                      goals=("end",) + (("suggest-after-2-completions",) if kind == "fifo-rea" else ()), hash_seeds=(1, 2, 3, 4, 5, 6), split=sp if kind != "pbt" else (("c4", (0, 1, 2, 3)), ("c5", (0, 1, 2, 3))), budget_s=1800, may_be_incomplete=not quick,
                       stubs=("globalrng", "fmt")))
     return obs
 
